@@ -458,6 +458,13 @@ func (s *Sched) Abort() {
 
 const repoPath = "github.com/zilliztech/milvus-cdc/"
 
+var blockedStates = map[string]bool{
+	"chan receive": true, "chan send": true, "select": true, "semacquire": true,
+	"sync.Mutex.Lock": true, "sync.RWMutex.RLock": true, "sync.RWMutex.Lock": true,
+	"sync.Cond.Wait": true, "sync.WaitGroup.Wait": true, "IO wait": true,
+	"chan receive (nil chan)": true, "chan send (nil chan)": true, "select (no cases)": true,
+}
+
 // Quiescent reports whether every goroutine that runs (or was created by) repository code is blocked on a
 // channel / lock / select without a pending timer.  self: substring identifying the caller's own goroutine.
 func quiescentOnce(buf []byte) (bool, string) {
@@ -488,8 +495,9 @@ func quiescentOnce(buf []byte) (bool, string) {
 		if i := strings.IndexByte(state, ','); i >= 0 {
 			state = state[:i]
 		}
-		switch state {
-		case "running", "runnable", "sleep", "syscall":
+		// only goroutines parked on a channel / lock / condition are idle; every other state (running, runnable,
+		// syscall, sleep, preempted, copystack, GC assist ...) may still make progress on its own
+		if !blockedStates[state] {
 			return false, head
 		}
 		// timer-driven waits inside a select: retry back-off and explicit sleeps
@@ -512,8 +520,13 @@ func WaitQuiescent(timeout time.Duration) error {
 	for i := 0; ; i++ {
 		runtime.Gosched()
 		q, who := quiescentOnce(buf)
-		if q {
-			return nil
+		if q { // confirm with a second snapshot after yielding the processor
+			runtime.Gosched()
+			time.Sleep(20 * time.Microsecond)
+			if q2, _ := quiescentOnce(buf); q2 {
+				return nil
+			}
+			continue
 		}
 		last = who
 		if time.Now().After(deadline) {
